@@ -8,6 +8,7 @@ from .. import core, tree
 from .c12 import NAMES, names_for, reference, unquote
 
 MOD = "mc.props.c13"
+MAXK = [None]   # bound on the size of stop / filtered-out subsets (None: all subsets)
 RE_NODE = re.compile(r'^(N\d+)\[(".*")\]$', re.S)
 RE_EDGE = re.compile(r"^(N\d+)-->(N\d+)$")
 
@@ -93,10 +94,10 @@ def check_shape(t, shape, rot=0, only=None, extras=True, kind="node"):
         t.c["states"] += 1
         sub = m.pre(start)
         h = m.height(start)
-        for stopset in core.powerset(sub):
+        for stopset in core.powerset(sub, MAXK[0]):
             sids = frozenset(id(nodes[v]) for v in stopset)
             stop = (lambda n, s=sids: id(n) in s) if stopset else None
-            for hidden in core.powerset(sub):
+            for hidden in core.powerset(sub, MAXK[0]):
                 hids = frozenset(id(nodes[v]) for v in hidden)
                 filt = (lambda n, s=hids: id(n) not in s) if hidden else None
                 for ml in [None] + list(range(0, h + 2)):
@@ -282,8 +283,9 @@ def check_histories(t, m, names, ctx):
             del last.hide
 
 
-def job(items, extras):
+def job(items, extras, maxk=None):
     t = core.Tally()
+    MAXK[0] = maxk
     for item in items:
         shape, rot = item[:2]
         kind = item[2] if len(item) > 2 else "node"
@@ -312,7 +314,10 @@ def run(tier):
     items += [(s, 2, kind) for kind in ("eqhash", "falsy", "weird") for s in tree.shapes_upto(nmax - 1)]
     items += [(s, 9) for s in tree.shapes_upto(nmax - 1)]   # non-string names
     t = core.Tally()
-    core.run_pool([(MOD, "job", {"items": [it], "extras": True}) for it in items[::-1]], 0, into=t)
+    jobs = [(MOD, "job", {"items": [it], "extras": True}) for it in items[::-1]]
+    if tier == "thorough":
+        jobs += [(MOD, "job", {"items": [(s, k % 9)], "extras": False, "maxk": 2}) for k, s in enumerate(tree.plane_trees(nmax + 1))]
+    core.run_pool(jobs, 0, into=t)
     core.run_pool([(MOD, "job", {"items": c, "extras": False}) for c in core.chunks([(s, 1) for s in tree.shapes_upto(3)], core.NPROC)], 1, into=t)
     cov = {
         "states": t.c["states"], "transitions": t.c["evaluations"], "traces_validated_against_impl": t.c["evaluations"],
